@@ -12,3 +12,5 @@ import DateutilVerif.Properties.C02
 #print axioms C02.convertyear_window_inv
 #print axioms C02.parse_render_numeric
 #print axioms C02.proved_templates_have_theorems
+#print axioms C02.offDescr_carries_offset
+#print axioms C02.offDescr_local_iff
